@@ -127,6 +127,14 @@ CLAIMED["C07"] = dict(category="model_checking",
          "judged on the real library.",
     design="6/C07", technique="TLA+ symbol-table rules + mechanism model (TLC); TLC trace validation of independently decoded wire bytes",
     note="Trusted: TLC, protowire, the harness' hand-written reader of pb/biscuit.proto. Bounds: histories <=3 blocks x <=2/3 uses (model); generated contents 1-4 blocks.")
+CLAIMED["C10"] = dict(category="exploration",
+    text="WireAdversary.tla defines the structured adversarial input space (17 fields x boundary values, all singles and all pairs: 5,784 "
+         "cases) with a total specification of the 13-operation panel and fixed outcomes for gate-guarded fields; TLC enumerates and exports "
+         "it. Each case is encoded with a raw protowire writer, validly signed by an attacker root so decoding, verification and evaluation "
+         "are reached, and the panel runs in an isolated worker (recovered panic or process death = violation), together with 4k/150k seeded "
+         "byte-level corruptions. TLA+ contributes the definition and exhaustive enumeration of the structured space; 'all byte strings' is sampled.",
+    design="6/C10 and 8", technique="TLA+ enumeration of the structured adversarial input space (TLC) + isolated-worker replay; seeded byte corruption",
+    note="Exploration level: the space of all byte strings cannot be enumerated; coverage = spec-defined field/boundary combinations + random corruption.")
 CLAIMED["C18"] = dict(category="model_checking",
     text="Lifecycle.tla models SerializePolicies/LoadPolicies; TLC checks SnapshotEquiv and SaveRefusedIffEvaluated over all histories "
          "(3x3 tokens x 24 contents x evaluated/unevaluated) and exports them; replay saves on the real authorizer, loads into a fresh one "
